@@ -165,4 +165,23 @@ Proof.
         rewrite tb_0, andb_false_r. apply nth_repeat.
 Qed.
 
+(** ** bitset(char const*, n, zero, one): delegates to the string_view constructor *)
+Lemma c_str_view_until_nul arr : c_str_view arr = s_until_nul arr.
+Proof. induction arr as [|c r IH]; [reflexivity|]. cbn [c_str_view s_until_nul]. now rewrite IH. Qed.
+
+Theorem of_cstring_spec arr counted zero one :
+  match of_cstring bits w mx m64 arr counted zero one with
+  | Ok ws => wf ws /\ s_of_cstring bits arr counted zero one = SOk (abs ws)
+  | Contract => s_of_cstring bits arr counted zero one = SOutOfRange
+                \/ s_of_cstring bits arr counted zero one = SInvalid
+  | _ => False
+  end.
+Proof.
+  unfold of_cstring, s_of_cstring. change s_npos with npos.
+  set (n := if counted then N.of_nat (length arr) else npos).
+  destruct (N.eqb n npos).
+  - rewrite c_str_view_until_nul. apply of_string_spec.
+  - apply of_string_spec.
+Qed.
+
 End Ctors.
